@@ -215,7 +215,13 @@ def _evaluate_world(ctx, use_fp: bool, kinds, ret: str, abi_out: bool, n_locals:
     TT = Sym("TealType", attrs={k: Rec("name", f"TealType.{k}") for k in ("none", "uint64", "bytes", "anytype")})
 
     def spec(name):
-        return Sym(f"spec:{name}", methods={"new_instance": lambda: Sym(f"abi-instance:{name}", attrs={"_stored_value": Rec("name", f"scratch-storage-of:{name}")}), "storage_type": lambda: TT.attrs["uint64"]})
+        def new_instance():
+            # where an ABI value lives is decided by the proto that is current when it is created
+            st_ = captured.get("ctx_stack") or []
+            captured.setdefault("instance_contexts", {})[name] = (bool(st_), st_[-1] if st_ else None)
+            return Sym(f"abi-instance:{name}", attrs={"_stored_value": Rec("name", f"scratch-storage-of:{name}")})
+
+        return Sym(f"spec:{name}", methods={"new_instance": new_instance, "storage_type": lambda: TT.attrs["uint64"]})
 
     out_spec = spec("output")
     subroutine = Sym(
@@ -310,6 +316,14 @@ def r02_2_convention(ctx):
                         problems.append(f"under frame pointers the body must be built with the routine's proto current; it is built with {_strip(cv)}")
                     if not use_fp and cv is not None:
                         problems.append(f"under the scratch convention the body must be built with no proto current; it is built with {_strip(cv)}")
+                # --- the output value of an ABI routine is created under the same discipline: under the scratch convention with
+                # no proto current (the evaluation may be nested in a frame-pointer routine's evaluation, whose frame it must not use)
+                oc = (cap.get("instance_contexts") or {}).get("output")
+                if abi_out and oc is not None and not use_fp:
+                    if not oc[0]:
+                        problems.append("under the scratch convention the output value is created outside any _frame_pointer_context: created while a frame-pointer routine is being evaluated it would live in that routine's frame")
+                    elif oc[1] is not None:
+                        problems.append(f"under the scratch convention the output value is created with {_strip(oc[1])} current instead of no proto")
                 # --- body: prologue then the user body last
                 if not ops or not (isinstance(ops[-1], Sym) and ops[-1].name == "user-body"):
                     problems.append("the user's body is not the last element of the routine")
